@@ -9,7 +9,9 @@ from wv.par import pmap
 CLAUSES = {
     "C06": ["P06_refused_request_never_reaches_application", "P11_no_response_after_a_closing_response", "P11_nothing_executed_after_a_closing_response",
             "P11_closing_response_is_followed_by_close", "P04_at_most_one_response_per_request"],
-    "C09": ["P09_every_started_iterable_is_closed", "P09_iterable_closed_exactly_once", "P12_paused_producer_released", "P13_workers_alive", "P13_no_thread_dies"],
+    "C09": ["P09_every_started_iterable_is_closed", "P09_iterable_closed_exactly_once", "P12_paused_producer_released", "P13_workers_alive", "P13_no_thread_dies",
+            "P11_nothing_executed_after_an_exchange_that_must_close", "P11_no_response_after_a_closing_response", "P05_dead_connection_closed", "P05_no_livelock",
+            "P13_torn_down_exactly_once", "P13_connection_with_a_send_error_is_torn_down"],
     "C03": ["P04_wire_is_a_sequence_of_well_formed_responses", "P04_at_most_one_response_per_request", "P04_only_the_last_response_may_be_cut",
             "P04_response_body_intact", "P05_every_complete_request_answered", "P05_no_livelock",
             "P11_no_response_after_a_closing_response", "P11_closing_response_is_followed_by_close", "P11_nothing_executed_after_a_closing_response"],
@@ -31,7 +33,7 @@ CLAUSES = {
             "P05_no_livelock", "P05_no_undelivered_output_at_quiescence", "P05_every_complete_request_answered", "P05_no_unserviced_request_at_quiescence"],
     "C13": ["P13_torn_down_exactly_once", "P13_buffers_released", "P13_open_connection_stays_polled",
             "P13_other_connections_undisturbed", "P13_listener_and_trigger_survive", "P13_only_the_io_thread_tears_down",
-            "P13_no_thread_dies", "P13_io_loop_alive", "P13_workers_alive",
+            "P13_no_thread_dies", "P13_io_loop_alive", "P13_workers_alive", "P13_connection_with_a_send_error_is_torn_down",
             # a worker left waiting on a connection that is gone is lost to the pool just as a dead one
             "P12_paused_producer_released"],
     "C19": ["P19_at_most_one_interim_per_request", "P19_interim_only_for_expecting_http11_request",
